@@ -1,6 +1,7 @@
 import FastQr.Proofs.ScoreSound
 import FastQr.Proofs.ScoreBounds
 import FastQr.Props.C11
+import FastQr.Props.C11Percent
 /-
 C11: the ranking score of a candidate matrix is the documented penalty of that matrix:
 `score q (transpose q) = Spec.Penalty.total (gridOf q)` — rows and columns through `ScoreSound.line_eq`,
